@@ -978,6 +978,7 @@ def c02(tier):
                     tol = 50 if op in ("carry", "mul", "mull", "min", "minconst", "same") else 0
                 if "tol" in e:
                     tol = e["tol"]                       # stated with the equation (whole-dollar halves of a sum of cent amounts)
+                tol = max(tol, e.get("tol_min", 0))
                 key = json.dumps([year, e["form"], e["line"], op, e.get("origin"), cond, e.get("condis", 0)] + [a.split(".", 1)[1] for a in args])
                 rec = {"eid": 0, "op": "subx" if e.get("exact_sub") else op, "line": line, "args": args, "src": src, "floor": bool(e.get("floor")), "cap0": bool(e.get("cap0")),
                        "num": e.get("num", 0), "den": e.get("den", 1), "k": e.get("k", 0), "tol": tol, "consts": e.get("consts", [0, 0, 0, 0, 0]),
